@@ -482,7 +482,7 @@ theorem mockClientSkel_props (tt : List TagTuple) :
     (mockClientSkel tt).props = tt.map fun t => (t.module, t.cls ++ kProtocolSuffix) := rfl
 theorem mockClientSkel_attrs (tt : List TagTuple) : (mockClientSkel tt).attrs = tt.map fun t => privAttr t.module := rfl
 theorem mockClientSkel_initParams (tt : List TagTuple) : (mockClientSkel tt).initParams = kSelf :: tt.map (·.module) := rfl
-theorem mockClientSkel_initBodyEmpty (tt : List TagTuple) : (mockClientSkel tt).initBodyEmpty = tt.isEmpty := rfl
+theorem mockClientSkel_initBodyEmpty (tt : List TagTuple) : (mockClientSkel tt).initBodyEmpty = false := rfl
 theorem mockClientSkel_methods (tt : List TagTuple) : (mockClientSkel tt).methods = fixedMethods := rfl
 
 /-! ## `sorted(tag_map)`: the keys come out in code-point order -/
